@@ -74,9 +74,14 @@ def build_shot(p: Dict[str, Any]):
         un = [U.Foot, U.Yard, U.Meter, U.Inch][i % 4] if p.get("wind_units", True) else U.Foot
         return un(U.Foot(ft) >> un)
     winds = [m.Wind(U.FPS(w[0]), U.Degree(w[1]), until(i, w[2])) for i, w in enumerate(p.get("winds", []))]
-    return m.Shot(weapon=weapon, ammo=ammo, look_angle=U.Degree(p.get("look_deg", 0.0)),
+    # every other multi-segment list is assigned through the public setter instead of the constructor
+    via_setter = p.get("winds_setter", len(winds) >= 2 and int(winds[0].velocity.raw_value * 1000) % 2 == 0)
+    shot = m.Shot(weapon=weapon, ammo=ammo, look_angle=U.Degree(p.get("look_deg", 0.0)),
                   relative_angle=U.Radian(p.get("rel_rad", 0.0)), cant_angle=U.Degree(p.get("cant_deg", 0.0)),
-                  atmo=atmo, winds=winds or None)
+                  atmo=atmo, winds=None if via_setter else (winds or None))
+    if via_setter:
+        shot.winds = winds
+    return shot
 
 
 def build_calc(cfg: Optional[Dict[str, Any]] = None):
